@@ -2177,7 +2177,12 @@ class _Abs:
         org = set(atoms)
         for p in parts:
             org |= _origin(p)
-        return _Opq(why, org)
+        o = _Opq(why, org)
+        for p in parts:        # what is computed from an undetermined value is reachable from it (see _progeny)
+            q = _d(p)
+            if isinstance(q, _Opq):
+                q.kids[("derived", id(o))] = o
+        return o
 
     # ---------------------------------------------------------------------------------------------------------- calls
     def call(self, path, args, top=False):
